@@ -16,6 +16,10 @@ type ent struct {
 	cert *x509.Certificate    // parsed by the code under test (needed as API argument)
 	std  *stdx509.Certificate // parsed by the standard library (independent reference)
 	der  []byte
+	// the bytes the certificate was CONFIGURED from (pool: as the standard library reports them; xpki.go: the hand-written
+	// name / key bytes that went into the tbsCertificate) — the reference for every raw field the code under test reports
+	subj, issuerSubj, spki []byte
+	stdParsed              bool // std is a parse of der (false: exotic name the standard library refuses; std then only carries the key)
 }
 
 const (
@@ -60,7 +64,8 @@ func pool() []*ent {
 			if err != nil {
 				panic(err)
 			}
-			poolV = append(poolV, &ent{name: d[0], key: k.(crypto.Signer), cert: c, std: sc, der: cb})
+			poolV = append(poolV, &ent{name: d[0], key: k.(crypto.Signer), cert: c, std: sc, der: cb,
+				subj: sc.RawSubject, issuerSubj: sc.RawIssuer, spki: sc.RawSubjectPublicKeyInfo, stdParsed: true})
 		}
 	})
 	return poolV
